@@ -143,7 +143,14 @@ func (s *sender) queue(ctx context.Context, id uint32) error {
 
 func (s *sender) sendFile(h *sendHandle) error {
 	f, err := s.fs.Open(h.path)
-	if err == nil {
+	if err != nil {
+		// A unix socket is announced as an empty regular file and cannot be
+		// opened: it has no content. Any other file that cannot be opened
+		// must not arrive as an empty file while both sides report success.
+		if !errors.Is(err, syscall.ENXIO) && !errors.Is(err, syscall.EOPNOTSUPP) {
+			return errors.Wrapf(err, "failed to open %s", h.path)
+		}
+	} else {
 		defer f.Close()
 		buf := bufPool.Get().(*[]byte)
 		defer bufPool.Put(buf)
